@@ -199,7 +199,7 @@ B1 = '''fn work(a: int, b: int, s: string, t: bool) -> int {
         }
     }
     for k in (range 0 2) {
-        @@ for-body ret=int imm=x:int,nm:string par=b:int,t:bool
+        @@ for-body ret=int imm=x:int,nm:string par=b:int,t:bool loopvar=k:int
         set y (+ y k)
         if (> y 1) {
             @@ nested ret=int imm=x:int,ok:bool par=a:int,s:string
@@ -326,7 +326,7 @@ B2 = '''fn main() -> int {
     (println g3)
     for k in (range 0 2) {
         (println k)
-        @@ for-body ret=int imm=n:int,s:string
+        @@ for-body ret=int imm=n:int,s:string loopvar=k:int
     }
     return <<return:int|(- m m)>>
 }
@@ -373,7 +373,7 @@ B3 = '''fn judge(a: int, w: string) -> bool {
     let mut z: int = 0
     for q in (range 0 3) {
         let mut r: int = 0
-        @@ for-body ret=bool imm=lim:int par=a:int,w:string
+        @@ for-body ret=bool imm=lim:int par=a:int,w:string loopvar=q:int
         while <<cond-while:bool|(< r q)>> {
             set r (+ r 1)
             @@ while-body ret=bool imm=lim:int par=a:int,w:string
@@ -581,7 +581,7 @@ B5 = '''fn dist(p: P, q: P, c: Color) -> int {
     let mut fz: float = 0.5
     set fz <<set:float|(+ fz fy)>>
     for i in (range 0 3) {
-        @@ for-body ret=int imm=dx:int,same:bool par=p:P,c:Color
+        @@ for-body ret=int imm=dx:int,same:bool par=p:P,c:Color loopvar=i:int
         set tot <<set:int|(+ tot (at xs i))>>
         if <<cond-if:bool|(and same (> tot 1))>> {
             @@ nested ret=int imm=dx:int,k:int,t:bool par=q:P
@@ -800,6 +800,7 @@ import random
 
 HOLE_RE = re.compile(r"<<([a-z@-]+):([A-Za-z]+)\|(.*?)>>")
 RET_RE = re.compile(r"^@ret:([a-z-]+)@")
+FN_RE = re.compile(r"^\s*(?:pub )?fn \w+\(.*\) -> (.+?) \{\s*$")
 MARK_RE = re.compile(r"^(\s*)@@ ([a-z-]+)(.*)$")
 
 
@@ -845,7 +846,11 @@ class Base:
             k = 0
             while k < len(ls) and ls[k].startswith(("from ", "module ", "unsafe module ", "import ")):
                 k += 1
-            text = "\n".join(ls[:k] + [prelude.rstrip("\n")] + ls[k:])
+            pl = prelude.rstrip("\n").split("\n")
+            text = "\n".join(ls[:k] + pl + ls[k:])
+            self.body_start = k + len(pl)
+        else:
+            self.body_start = 0
         self.lines = text.split("\n")
         self.holes, self.points, self.rets = [], [], []
         for li, l in enumerate(self.lines):
@@ -861,10 +866,24 @@ class Base:
             for hm in HOLE_RE.finditer(l):
                 self.holes.append(Hole(len(self.holes), li, hm.group(1), hm.group(2), hm.group(3)))
 
+    def ret_type_at(self, line):
+        """declared return type of the function whose body contains template line `line` (None in a shadow block)"""
+        for li in range(line, -1, -1):
+            l = self.lines[li]
+            if l.startswith("shadow "):
+                return None
+            m = FN_RE.match(l)
+            if m:
+                return m.group(1).strip()
+        return None
+
     def render(self, mut=None):
         out = []
         hidx = 0
+        top = mut[3] if mut and mut[0] == "stmt" and len(mut) > 3 else None
         for li, l in enumerate(self.lines):
+            if top and li == self.body_start:
+                out.extend(top)            # top-level declarations in front of the base's own functions
             m = MARK_RE.match(l)
             if m:
                 if mut and mut[0] == "stmt" and self.points[mut[1]].line == li:
@@ -1196,6 +1215,99 @@ def stmt_variants(rule, pt):
         out.append(("extra arm circle (case)", ["let zs: Sh = Sh.Sq { s: 1 }", "match zs {", "    Circle(zc) => { set gmut zc.r }",
                                                 "    Sq(zq) => { set gmut zq.s }", "    circle(zn) => { set gmut 1 }", "}"]))
     return out
+
+
+OTHER_T = {"int": "string", "string": "int", "bool": "int", "float": "string", "arr": "int", "P": "int", "Sh": "int",
+           "Color": "string", "tup": "int", "fn": "int", "payload": "int"}
+CLS_TYPE = {"int": "int", "string": "string", "bool": "bool", "float": "float", "arr": "array<int>", "P": "P", "Sh": "Sh",
+            "Color": "Color", "tup": "(int, bool)", "fn": "fn(int) -> int"}
+COINCIDENCES = ["", "same-name-mut-local-of-earlier-fn", "same-name-mut-global"]
+
+
+def coincidence_top(co, n, U):
+    """top-level declarations that give the NAME n an earlier life as a MUTABLE variable of another type U"""
+    v1, v2 = LIT[U][0], LIT[U][-1]
+    U = CLS_TYPE[U]
+    if co == "same-name-mut-local-of-earlier-fn":
+        return ["fn zco_%s(zz: int) -> int {" % n, "    let mut %s: %s = %s" % (n, U, v1), "    set %s %s" % (n, v2),
+                "    return zz", "}", "shadow zco_%s { assert (== (zco_%s 1) 1) }" % (n, n)]
+    if co == "same-name-mut-global":
+        return ["let mut %s: %s = %s" % (n, U, v1)]
+    return None
+
+
+def binding_sites(rule, kind, cls, co, pt):
+    """[(variant, mutation, control)] for the two binding rules at one statement point.
+    set-immutable-binding: `set n <value of n's own type>`; binding-used-at-wrong-type: `let zuse: U = n` with U != type(n).
+    With a coincidence, an earlier function / a global declares a MUTABLE variable of the same name: of the binding's own
+    type for the assignment (only the mutability differs, so a mix-up of the two symbols makes the assignment look legal),
+    of type U for the wrong-type use (a mix-up makes the use look well-typed)."""
+    out = []
+    for vn, lines in binding_variants(kind, cls, pt):
+        n = lines[0].split()[1]
+        U = OTHER_T[cls]
+        if rule == "binding-used-at-wrong-type":
+            if cls == "payload":
+                continue
+            lines = ["let zuse: %s = %s" % (U, n)]
+            vn = "let zuse: %s = %s:%s" % (U, n, cls)
+        if not co:
+            out.append((vn, ("stmt", pt.idx, lines)))
+            continue
+        if n == "gimm" or (kind == "global" and co == "same-name-mut-global"):
+            continue
+        if rule == "set-immutable-binding" and cls not in CLS_TYPE:
+            continue
+        top = coincidence_top(co, n, cls if rule == "set-immutable-binding" else U)
+        out.append((vn + " [" + co + "]", ("stmt", pt.idx, lines, top), ("stmt", pt.idx, [], top)))
+    seen, uniq = set(), []
+    for v in out:
+        if v[0] not in seen:
+            seen.add(v[0])
+            uniq.append(v)
+    return uniq
+
+
+# scope-after-block where the declaring block is left by return / break / continue, per kind of block
+RET_LIT = {"int": "0", "bool": "false", "string": '""', "float": "0.0", "P": "P { x: 0, y: 0 }", "Color": "Color.Red",
+           "fn(int) -> int": "i2i"}
+SCOPE_EXIT_CONTEXTS = ["let", "set", "return"]
+
+
+def scope_exit_variants(T, ret):
+    """{block-exit kind: pre statements} declaring zblk: T in a block that ends with / contains an exit statement"""
+    if T not in ("int", "bool", "string", "float"):
+        return {}
+    v = LIT[T][0]
+    d = "let zblk: %s = %s" % (T, v)
+    out = {
+        "while-break": ["let mut zcnt: int = 0", "while (< zcnt 1) {", "    set zcnt (+ zcnt 1)", "    " + d, "    break", "}"],
+        "while-continue": ["let mut zcnt: int = 0", "while (< zcnt 1) {", "    set zcnt (+ zcnt 1)", "    " + d, "    continue", "}"],
+        "for-break": ["for zi in (range 0 1) {", "    " + d, "    break", "}"],
+        "for-continue": ["for zi in (range 0 1) {", "    " + d, "    continue", "}"],
+        "for-plain": ["for zi in (range 0 1) {", "    " + d, "}"],
+        "match-arm-plain": ["let zs: Sh = Sh.Circle { r: 1 }", "match zs {", "    Circle(zc) => {", "        " + d, "        set gmut zc.r",
+                            "    }", "    Sq(zq) => {", "        set gmut zq.s", "    }", "}"],
+        "unsafe-plain": ["unsafe {", "    " + d, "}"],
+    }
+    r = RET_LIT.get(ret)
+    if r is not None:
+        rl = "return " + r
+        out.update({
+            "if-return": ["if false {", "    " + d, "    " + rl, "}"],
+            "else-return": ["if true {", "    set gmut gmut", "} else {", "    " + d, "    " + rl, "}"],
+            "while-return": ["let mut zcnt: int = 0", "while (< zcnt 0) {", "    set zcnt (+ zcnt 1)", "    " + d, "    " + rl, "}"],
+            "for-return": ["for zi in (range 0 0) {", "    " + d, "    " + rl, "}"],
+            "match-arm-return": ["let zs: Sh = Sh.Circle { r: 1 }", "match zs {", "    Circle(zc) => {", "        set gmut zc.r", "    }",
+                                 "    Sq(zq) => {", "        " + d, "        " + rl, "    }", "}"],
+            "unsafe-return": ["if false {", "    unsafe {", "        " + d, "        " + rl, "    }", "}"],
+            "nested-if-return": ["if true {", "    if false {", "        " + d, "        " + rl, "    }", "}"],
+        })
+    return out
+
+
+SCOPE_EXIT_KINDS = ["if-return", "else-return", "while-return", "while-break", "while-continue", "for-plain", "for-return", "for-break",
+                    "for-continue", "match-arm-plain", "match-arm-return", "unsafe-plain", "unsafe-return", "nested-if-return"]
 
 
 def binding_variants(kind, cls, pt):
@@ -1644,7 +1756,7 @@ def write_files(d, files):
 
 class Mutant:
     """one site: (rule, context) instantiated at (base, place) with one catalogue variant"""
-    __slots__ = ("rule", "context", "base", "mut", "variant", "where", "line", "obs", "n")
+    __slots__ = ("rule", "context", "base", "mut", "variant", "where", "line", "obs", "n", "ctl")
 
 
 def mutated_line(base, mut):
@@ -1705,6 +1817,7 @@ def build_cells(bases, nsites, rng_for):
                 used.add((base.name, pk, v[0]))
                 m = Mutant()
                 m.rule, m.context, m.base, m.mut, m.variant, m.where = rule, context, base, v[1], v[0], where
+                m.ctl = v[2] if len(v) > 2 else None      # the same change without the offending part: must be ACCEPTED
                 m.obs = None
                 chosen.append(m)
                 progress = True
@@ -1758,14 +1871,34 @@ def build_cells(bases, nsites, rng_for):
             pick(rule, context, expr_cands(rule, context, bases))
     for kind in BINDING_KINDS:
         for cls in ("int", "string", "bool", "float", "arr", "P", "Sh", "Color", "tup", "fn", "payload"):
+            for rule in ("set-immutable-binding", "binding-used-at-wrong-type"):
+                for co in COINCIDENCES:
+                    cands = []
+                    for b in bases:
+                        if b.kind != "hand":
+                            continue
+                        for pt in b.points:
+                            if pt.blockctx == "shadow-body":
+                                continue
+                            cands.append((b, "p%d" % pt.idx, "stmt point %d (%s)" % (pt.idx, pt.blockctx),
+                                          binding_sites(rule, kind, cls, co, pt)))
+                    pick(rule, "%s:%s%s" % (kind, cls, "+" + co if co else ""), cands)
+    # out-of-scope use where the declaring block is left by return / break / continue (the `for` variable itself is not
+    # used: only names declared INSIDE the block)
+    for hctx in SCOPE_EXIT_CONTEXTS:
+        for xk in SCOPE_EXIT_KINDS:
             cands = []
             for b in bases:
-                for pt in b.points:
-                    if pt.blockctx == "shadow-body":
+                if b.kind != "hand":
+                    continue
+                for h in b.holes:
+                    if h.ctx != hctx:
                         continue
-                    cands.append((b, "p%d" % pt.idx, "stmt point %d (%s)" % (pt.idx, pt.blockctx),
-                                  [(vn, ("stmt", pt.idx, lines)) for vn, lines in binding_variants(kind, cls, pt)]))
-            pick("set-immutable-binding", "%s:%s" % (kind, cls), cands)
+                    pre = scope_exit_variants(h.T, b.ret_type_at(h.line)).get(xk)
+                    if pre:
+                        cands.append((b, "h%d" % h.idx, "hole %d (%s:%s)" % (h.idx, h.ctx, h.T),
+                                      [(xk, ("hole", h.idx, list(pre), "zblk"), ("hole", h.idx, list(pre), h.default))]))
+            pick("scope-after-exiting-block", "%s~%s" % (hctx, xk), cands)
     # import dimension: context names are "<context>+<import context>"
     for ic in IMPORT_CONTEXTS:
         bs = [b for b in all_bases if b.imp == ic]
@@ -1855,36 +1988,85 @@ def run(ctx):
                 native = sh([os.path.join(d, "t.bin")], cwd=d, cpu=20)
             return name, b, mut, obs, native
 
-        ctl = control_mutants(bases)
-        good_bases = []
-        dropped = []
-        n_ctl = 0
-        for name, b, mut, obs, native in pmap(do_control, list(enumerate(ctl))):
+        def accepted(b, obs, native):
             # accepted = no diagnostic, exit 0 (a generated program may end with an exit status of its own under --run),
             # both output files written, the marker printed by the VM and by the native binary
-            ok = (all(o.cls == "silently-built" and not o.sig for o in obs if o) and obs[2].rc == 0
-                  and (obs[1].rc == 0 or b.kind == "gen") and obs[2].artifact and obs[1].marker
-                  and (obs[0] is None or (obs[0].rc == 0 and obs[0].artifact and native is not None and MARKER in native.text())))
+            return (all(o.cls == "silently-built" and not o.sig for o in obs if o) and obs[2].rc == 0
+                    and (obs[1].rc == 0 or b.kind == "gen") and obs[2].artifact and obs[1].marker
+                    and (obs[0] is None or (obs[0].rc == 0 and obs[0].artifact and native is not None and MARKER in native.text())))
+
+        def why_not(obs):
+            return "; ".join("%s: %s rc=%s %s" % (o.tool, o.cls, o.rc, (o.diag or [""])[0][:100]) for o in obs if o)
+
+        # 1. the bases themselves.  A base that the tree under test does not accept (a seeded or real regression can make a
+        #    well-formed base fail) is left out, counted and reported; the others go on.
+        n_ctl = 0
+        ctl_id = [0]
+
+        def run_controls(items):
+            base_i = ctl_id[0]
+            ctl_id[0] += len(items)
+            return pmap(do_control, [(base_i + i, it) for i, it in enumerate(items)])
+
+        good_bases, dropped, bases_not_accepted = [], [], []
+        for name, b, mut, obs, native in run_controls([("base:" + b.name, b, None) for b in bases]):
             n_ctl += 1
-            if ok:
-                if mut is None:
-                    good_bases.append(b)
-                continue
-            why = "; ".join("%s: %s rc=%s %s" % (o.tool, o.cls, o.rc, (o.diag or [""])[0][:100]) for o in obs if o)
-            if b.kind == "gen" and mut is None:
-                dropped.append(b.name + " (" + why[:160] + ")")     # a generated program outside the engines' clean zone
-                continue
-            raise Inconclusive("control program '%s' is not accepted by all three tools (%s): the catalogue or a base "
-                               "program is wrong" % (name, why))
-        bases = good_bases
+            if accepted(b, obs, native):
+                good_bases.append(b)
+            elif b.kind == "gen":
+                dropped.append(b.name + " (" + why_not(obs)[:160] + ")")     # a generated program outside the engines' clean zone
+            else:
+                bases_not_accepted.append({"base": b.name, "why": why_not(obs)[:300]})
         if dropped:
             ctx.note("generated bases not accepted unmutated (dropped): " + ", ".join(dropped)[:600])
+        if bases_not_accepted:
+            ctx.note("hand-written bases NOT ACCEPTED by the tree under test (left out): " +
+                     "; ".join("%s [%s]" % (x["base"], x["why"][:140]) for x in bases_not_accepted)[:900])
+        n_hand = len([b for b in bases if b.kind == "hand"])
+        n_hand_ok = len([b for b in good_bases if b.kind == "hand"])
+        core_ok = [b.name for b in good_bases if b.name in ("b1", "b2", "b3", "b4", "b5")]
+        ctx.require(len(core_ok) >= 3 and n_hand_ok >= 0.6 * n_hand,
+                    "too few base programs are accepted by the tree under test (%d of %d hand-written; core: %s): %s" % (
+                        n_hand_ok, n_hand, core_ok, bases_not_accepted[:4]))
+        bases = good_bases
+        # 2. the statements that catalogue entries bring along, on accepted bases
+        controls_not_accepted = []
+        for name, b, mut, obs, native in run_controls([c for c in control_mutants(bases) if c[2] is not None]):
+            n_ctl += 1
+            if not accepted(b, obs, native):
+                controls_not_accepted.append({"control": name, "base": b.name, "why": why_not(obs)[:300]})
+        if controls_not_accepted:
+            ctx.note("catalogue controls NOT ACCEPTED: " + "; ".join("%s on %s [%s]" % (x["control"], x["base"], x["why"][:120])
+                                                                      for x in controls_not_accepted)[:900])
+        ctx.require(len(controls_not_accepted) <= 3, "catalogue controls are not accepted: %s" % controls_not_accepted[:5])
 
         # ---- the table ---------------------------------------------------------------------------------------
         cells, ncand = build_cells(bases, nsites, lambda *a: ctx.rng("cell", *a))
         if os.environ.get("NLV_C05_RULES"):      # development: only these rules (the size requirements below will not hold)
             only = set(os.environ["NLV_C05_RULES"].split(","))
             cells = {k: v for k, v in cells.items() if k[0] in only}
+        # 3. twin controls: the same change without its offending part (an earlier same-name declaration, a block left by
+        #    return/break/continue ...) must be accepted; sites whose twin is not accepted are left out
+        twins = {}
+        for k in cells:
+            for m in cells[k]:
+                if m.ctl is not None:
+                    twins.setdefault((m.base.name, repr(m.ctl)), (m.base, m.ctl))
+        twin_ok = {}
+        tw_items = [("twin:%s" % k[0], b, c) for k, (b, c) in sorted(twins.items())]
+        for (name, b, mut, obs, native), k in zip(run_controls(tw_items), sorted(twins)):
+            n_ctl += 1
+            twin_ok[k] = accepted(b, obs, native)
+            if not twin_ok[k] and len(controls_not_accepted) < 40:
+                ln, new, old = mutated_line(b, mut)
+                controls_not_accepted.append({"control": "twin", "base": b.name, "change": " // ".join(new)[:160], "why": why_not(obs)[:200]})
+        n_sites_dropped = 0
+        for k in cells:
+            keep = [m for m in cells[k] if m.ctl is None or twin_ok[(m.base.name, repr(m.ctl))]]
+            n_sites_dropped += len(cells[k]) - len(keep)
+            cells[k] = keep
+        if n_sites_dropped:
+            ctx.note("%d sites left out because their twin control (same change without the violation) is not accepted" % n_sites_dropped)
         mutants = [m for k in sorted(cells) for m in cells[k]]
         for i, m in enumerate(mutants):
             m.n = i
@@ -1997,7 +2179,10 @@ def run(ctx):
             "cells_with_fewer_sites": {"%s|%s" % k: len(cells[k]) for k in short},
             "mutants": len(mutants),
             "bases": {"hand": [b.name for b in bases if b.kind == "hand"], "generated": len([b for b in bases if b.kind == "gen"])},
-            "controls_accepted": n_ctl - len(dropped),
+            "controls_accepted": n_ctl - len(dropped) - len(bases_not_accepted) - len(controls_not_accepted),
+            "bases_not_accepted": bases_not_accepted,
+            "controls_not_accepted": controls_not_accepted[:40],
+            "sites_dropped_by_twin_control": n_sites_dropped,
             "class_histogram": class_hist,
             "stage_histogram": stage_hist,
             "cell_histogram": cell_hist,
